@@ -44,13 +44,17 @@ func getRamainsSum(states *[]types.State) sdk.DecCoins {
 
 func (k Keeper) PrepareCoinsToDistribute(sources []*types.Account, ctx sdk.Context, states []types.State, subDistributorName string) sdk.DecCoins {
 	allCoinsToDistribute := sdk.NewDecCoins()
+	// the main account must be evaluated before any other source is swept into it
 	for _, source := range sources {
-		var coinsToDistribute sdk.DecCoins
 		if source.Type == types.Main {
-			coinsToDistribute = k.prepareCoinToDistributeForMainAccount(ctx, states, subDistributorName)
-		} else {
-			coinsToDistribute = k.prepareCoinToDistributeForNotMainAccount(ctx, *source, states, subDistributorName)
+			allCoinsToDistribute = allCoinsToDistribute.Add(k.prepareCoinToDistributeForMainAccount(ctx, states, subDistributorName)...)
 		}
+	}
+	for _, source := range sources {
+		if source.Type == types.Main {
+			continue
+		}
+		coinsToDistribute := k.prepareCoinToDistributeForNotMainAccount(ctx, *source, states, subDistributorName)
 
 		if len(coinsToDistribute) == 0 {
 			continue
